@@ -425,3 +425,34 @@ func ResolvedResults(ret *ssa.Return) []ssa.Value {
 	}
 	return out
 }
+
+// Loaders returns the fetchers of the given packages plus their thin wrappers: functions that pass one of their own
+// parameters on as an argument of a static call to a loader (e.g. a cache-checking front of the real fetch function).
+func (g *Graph) Loaders(pkgs map[string]bool) map[*ssa.Function]bool {
+	out := g.Fetchers(pkgs)
+	for changed := true; changed; {
+		changed = false
+		for _, f := range g.Funcs() {
+			if out[f] {
+				continue
+			}
+			rel, ok := g.P.PkgOf(f)
+			if !ok || (pkgs != nil && !pkgs[rel]) {
+				continue
+			}
+			for _, ci := range CallsIn(f) {
+				callee := ci.Common().StaticCallee()
+				if callee == nil || !out[callee] {
+					continue
+				}
+				for _, a := range ci.Common().Args[1:] {
+					if p, isParam := a.(*ssa.Parameter); isParam && p.Parent() == f && len(f.Params) > 0 && p != f.Params[0] {
+						out[f] = true
+						changed = true
+					}
+				}
+			}
+		}
+	}
+	return out
+}
